@@ -263,6 +263,8 @@ pub struct Exec {
     pub case_nontrivial: bool,
     pub last_out: Out,
     pub last_events: Vec<Ev>,
+    /// the target of the running mutator borrowed a static text when the call started (C10)
+    pub tgt_was_static: bool,
 }
 
 fn parse_items_chars(s: &str) -> Option<Vec<Option<char>>> {
@@ -305,6 +307,7 @@ impl Exec {
             case_nontrivial: false,
             last_out: Out::Ok(String::new()),
             last_events: Vec::new(),
+            tgt_was_static: false,
         }
     }
 
@@ -562,6 +565,7 @@ impl Exec {
             return (out, vec![h]);
         }
         let pre_oracle = self.oracle[h].clone().unwrap();
+        self.tgt_was_static = self.pool[h].as_ref().map(|x| verif_hooks::kind(x) == 2).unwrap_or(false);
         let mut ls = self.pool[h].take().unwrap();
         let mut or = self.oracle[h].take().unwrap();
         // (crate outcome, oracle outcome)
@@ -803,6 +807,9 @@ impl Exec {
                 &["C07", "C01"]
             } else if matches!(oout, Out::PanicCb) || matches!(out, Out::PanicCb) {
                 &["C18", "C01"]
+            } else if self.tgt_was_static {
+                // C10: the first write moves a static-backed handle to its own storage *with the correct contents*
+                &["C01", "C10"]
             } else {
                 &["C01"]
             };
@@ -812,6 +819,7 @@ impl Exec {
             let props: &[&'static str] = match out {
                 Out::PanicCb => &["C18", "C01"],
                 Out::PanicIdx => &["C07", "C01"],
+                _ if self.tgt_was_static => &["C01", "C10"],
                 _ => &["C01"],
             };
             self.fail(
@@ -1217,7 +1225,10 @@ impl Exec {
             let cur_len = b_t.as_ref().map(|b| b.len as u128).unwrap_or(0);
             let too_big = size_arg.map(|n| n + cur_len >= (1u128 << 56) - 1).unwrap_or(false);
             if refusals == 0 && !too_big {
-                self.fail(&["C05", "C06"], format!("`{opline}` reported an allocation failure although no request was refused"));
+                // no request at all: the "failure" comes out of the representation itself (a reachable value whose
+                // two words collide with the niche that encodes `Err`/`None`) -- C20; and `String` does not fail -- C01
+                let props: &[&'static str] = if requests.is_empty() { &["C05", "C06", "C01", "C20"] } else { &["C05", "C06", "C01"] };
+                self.fail(props, format!("`{opline}` reported an allocation failure although no request was refused"));
             }
             let want_err = t[0].starts_with("try_");
             if want_err != matches!(out, Out::Err) && !matches!(base, "display") {
